@@ -153,6 +153,8 @@ def nontrivial(case):
 
 
 def tally(rep, case, impl_res, ans):
+    if case.get('spec'):
+        rep.count('positions_dtype:' + (case['spec'].get('dtypes') or {}).get('channel_positions', 'float64'))
     if case.get('probes'):
         rep.count('merged_probes:%d' % len(case['probes']))
         if any(sorted(p['channel_map']) != list(range(len(p['channel_map']))) for p in case['probes']):
@@ -189,5 +191,7 @@ def gen(tier, rng):
             yield dict(p=PID, probes=c['probes'], dirnames=c['dirnames'], factor=[1, 2.5][i % 2], n_closest=rng.pick([2, 3, 12]))
         else:
             spec = DC.dense_spec(rng, raw=(i % 4 == 1), feats=(i % 2 == 0), probes=(i % 5 == 0), empty=['none', 'last', 'middle'][i % 3])
+            if i % 3 == 1:     # probe coordinates stored as integers
+                spec['dtypes'] = dict(spec.get('dtypes') or {}, channel_positions=['int32', 'uint32', 'int64', 'uint16'][(i // 3) % 4])
             yield dict(p=PID, spec=spec, factor=[1, 2.5][i % 2], label=['', 'probe00'][i % 7 == 0], n_closest=rng.pick([2, 3, 12]), reexport=(i % 4 == 1 and i % 7 != 0),
                        rs=i)
